@@ -98,11 +98,33 @@ pub fn run(seed: u64, count: usize, outdir: &str) -> std::io::Result<i32> {
                 }
             }
         }
+        if ci == 1 {
+            // corpus: a value that is NaN is a VALUE pixel (never a fill, never inside), whatever its payload bits are
+            for k in 0..256u32 { for low in [0u32, 1] {
+                let bits = 0x7FC0_0000u32 | (k << 9) | low | ((k & 7) << 1);
+                let mut ctx = fidget_core::context::Context::new();
+                let x = ctx.x(); let cst = ctx.constant(f32::from_bits(bits)); let root = ctx.add(x, cst).unwrap();
+                let gg = GenShape { ctx, root, kind: "nan-payload" };
+                for pp in [false, true] {
+                    let cc = Cfg2 { w: 5, h: 3, tiles: vec![4, 2], mat: Matrix3::identity(), z: 0.0, pp, threads: 0 };
+                    for (name, res) in [("vm", catch_unwind(AssertUnwindSafe(|| render2::<VmFunction>(&gg, &cc)))), ("jit", catch_unwind(AssertUnwindSafe(|| render2::<JitFunction>(&gg, &cc))))] {
+                        match res { Ok(Some(img)) => { if let Some(px) = img.iter().find(|px| px.inside() || !matches!(px.unpack(), DistancePixel::Value(v) if v.is_nan())) {
+                                        bad.push(format!("kind=nan-value-read-as-fill backend={name} x + NaN(bits {bits:#x}) rendered {:?} (pixel-perfect {pp})", px.unpack())); } }
+                                    _ => bad.push(format!("kind=panic backend={name} rendering x + NaN(bits {bits:#x})")) }
+                    }
+                }
+            } }
+            bad.sort(); bad.dedup(); bad.truncate(4);
+        }
         let vm = catch_unwind(AssertUnwindSafe(|| render2::<VmFunction>(&g, &c)));
         let jit = catch_unwind(AssertUnwindSafe(|| render2::<JitFunction>(&g, &c)));
+        // the interpreter with 3 registers (every third case): spills everywhere, and simplified tapes that can be longer than their parent
+        let vm3 = if ci % 3 == 1 { Some(catch_unwind(AssertUnwindSafe(|| render2::<fidget_core::vm::GenericVmFunction<3>>(&g, &c)))) } else { None };
         let m4 = mat4_of(&c);
         let mut il = String::new();
-        for (name, res) in [("vm", &vm), ("jit", &jit)] {
+        let mut backends = vec![("vm", &vm), ("jit", &jit)];
+        if let Some(v) = &vm3 { backends.push(("vm3", v)); }
+        for (name, res) in backends {
             let img = match res { Ok(Some(i)) => i, Ok(None) => { bad.push(format!("kind=no-image backend={name} render returned None without cancellation")); continue; }
                                   Err(_) => { bad.push(format!("kind=panic backend={name} render panicked")); continue; } };
             let mut first: Option<String> = None;
